@@ -2,6 +2,7 @@ package main
 
 import (
 	"fmt"
+	"strconv"
 	"strings"
 	"net/http"
 	"net/http/httptest"
@@ -336,6 +337,19 @@ func runRR(sc Scenario, tr *Trace, seed int64) {
 			ck, ckfree, value := "", false, ""
 			if spec == "garbage" {
 				value = "Zm9v!!not-a-cookie"
+			} else if strings.HasPrefix(spec, "rand:") { // well-formed alphabet, arbitrary length, never issued by anyone
+				n, _ := strconv.Atoi(strings.TrimPrefix(spec, "rand:"))
+				const alpha = "ABCDEFGHIJKLMNOPQRSTUVWXYZabcdefghijklmnopqrstuvwxyz0123456789-_"
+				bs := make([]byte, n)
+				for i := range bs {
+					bs[i] = alpha[(i*7+n*13+int(seed))%len(alpha)]
+				}
+				value = string(bs)
+				for _, p := range parts {
+					if p == "raw" || p == "" {
+						ckfree = true
+					}
+				}
 			} else if src != nil {
 				value = src.value
 				valid := src.by != "foreign"
@@ -356,12 +370,20 @@ func runRR(sc Scenario, tr *Trace, seed int64) {
 				case "reenc":
 					value = strings.ToUpper(value)
 					valid, ckfree = false, true
+				default:
+					if strings.HasPrefix(spec, "trunc:") { // cut to an arbitrary length
+						n, _ := strconv.Atoi(strings.TrimPrefix(spec, "trunc:"))
+						if n < len(value) {
+							value = value[:n]
+							valid = false
+						}
+					}
 				}
 				hasRaw := false
 				for _, p := range parts {
 					hasRaw = hasRaw || p == "raw" || p == ""
 				}
-				if hasRaw && (spec == "trunc" || spec == "flip" || strings.HasPrefix(spec, "otherkey")) {
+				if hasRaw && (strings.HasPrefix(spec, "trunc") || spec == "flip" || strings.HasPrefix(spec, "otherkey")) {
 					ckfree = true // an unauthenticated value may still name a member
 				}
 				if valid && src.by == "aesttl" {
@@ -381,7 +403,18 @@ func runRR(sc Scenario, tr *Trace, seed int64) {
 				req.AddCookie(&http.Cookie{Name: "oxysession", Value: value})
 			}
 			rec := httptest.NewRecorder()
-			s.handler().ServeHTTP(rec, req)
+			panicked := false
+			func() {
+				defer func() {
+					if p := recover(); p != nil {
+						panicked = true
+					}
+				}()
+				s.handler().ServeHTTP(rec, req)
+			}()
+			if panicked {
+				rec.Code = 0
+			}
 			setcookie := false
 			for _, c := range rec.Result().Cookies() {
 				if c.Name == "oxysession" {
@@ -392,7 +425,7 @@ func runRR(sc Scenario, tr *Trace, seed int64) {
 			}
 			tr.Emit(M{"e": "Serve", "status": rec.Code, "hstatus": s.h.status, "invoked": s.h.invoked == 1,
 				"ninvoked": s.h.invoked, "k": s.h.k, "v": s.h.v, "mut": s.h.mut, "ck": ck, "ckfree": ckfree,
-				"cookie": spec, "setcookie": setcookie, "sticky": sticky, "members": s.members()})
+				"cookie": spec, "setcookie": setcookie, "sticky": sticky, "panicked": panicked, "members": s.members()})
 		default:
 			fatal("rr: unknown op %v", st)
 		}
